@@ -71,6 +71,8 @@ class Tr:
             return "(" + op.join(g for g, _ in gs) + ")%bool", "bool"
         if isinstance(e, ast.UnaryOp) and isinstance(e.op, ast.Not):
             g, t = self.expr(e.operand)
+            if t == "str":      # truthiness of a string
+                return "(negb (py_bool_str %s))" % g, "bool"
             if t != "bool":
                 raise Unsupported("not on non-bool")
             return "(negb %s)" % g, "bool"
@@ -88,6 +90,17 @@ class Tr:
             if ta != "str":
                 raise Unsupported("membership of non-str")
             return "(" + " || ".join("str_eqb %s %s" % (a, lit(x.value)) for x in e.comparators[0].elts) + ")%bool", "bool"
+        if isinstance(e, ast.Compare) and len(e.ops) == 1 and isinstance(e.ops[0], ast.Eq) \
+                and isinstance(e.left, ast.Call) and isinstance(e.left.func, ast.Attribute) \
+                and e.left.func.attr == "lower" and not e.left.args and not e.left.keywords \
+                and isinstance(e.comparators[0], ast.Constant) and isinstance(e.comparators[0].value, str) \
+                and self.env.get("lower_pre") == "table":
+            recv, tr = self.expr(e.left.func.value)
+            target = e.comparators[0].value
+            if tr != "str" or not target.isascii() or target.lower() != target:
+                raise Unsupported("lower() comparison")
+            self.lower_targets = getattr(self, "lower_targets", set()) | set(target)
+            return "(py_lower_eq lower_pre %s %s)" % (recv, lit(target)), "bool"
         if isinstance(e, ast.Compare) and len(e.ops) == 1:
             (a, ta), (b, tb) = self.expr(e.left), self.expr(e.comparators[0])
             op = e.ops[0]
@@ -613,19 +626,19 @@ def tr_guard_function(src, qual, coqname, argtypes, tables, consts, exns):
     return "Definition %s %s : res str :=\n  %s." % (coqname, binders, t.gblock_(f.body))
 
 
-def tr_fresh_name_loop(src, qual, coqname, dict_attr):
+def tr_fresh_name_loop(src, qual, coqname, dict_attr, taken_attr=None):
     """a method of exactly this shape (anything else is Unsupported):
 
         for i in range(BOUND):
             name = f"..{i}.."
-            if name not in self.<dict_attr>.values():
+            if name not in self.<dict_attr>.values() [and f"..{i}.." not in self.<taken_attr>]:
                 self.<dict_attr>[<arg>] = name
                 return
         else:
             raise NotImplementedError(...)
 
-    Emits <coqname>_bound, <coqname>_name, <coqname>_loop (the range loop with its bound as fuel) and
-    <coqname> : dict -> key -> res dict."""
+    Emits <coqname>_bound, <coqname>_name, [<coqname>_name2,] <coqname>_loop (the range loop with its bound as
+    fuel) and <coqname> : [taken ->] dict -> key -> res dict.  `taken` stands for the keys of self.<taken_attr>."""
     f = find(ast.parse(src), qual)
     args = [a.arg for a in f.args.args if a.arg not in ("self", "cls")]
     body = [s for s in f.body if not (isinstance(s, ast.Expr) and isinstance(s.value, ast.Constant))]
@@ -646,49 +659,79 @@ def tr_fresh_name_loop(src, qual, coqname, dict_attr):
             and isinstance(lb[1], ast.If) and not lb[1].orelse):
         raise Unsupported("loop body of " + qual)
     name = lb[0].targets[0].id
-    parts = []
-    seen_i = False
-    for v in lb[0].value.values:
-        if isinstance(v, ast.Constant) and isinstance(v.value, str):
-            parts.append(lit(v.value))
-        elif isinstance(v, ast.FormattedValue) and v.conversion == -1 and v.format_spec is None \
-                and isinstance(v.value, ast.Name) and v.value.id == i:
-            parts.append("py_str_of_N %s" % i)
-            seen_i = True
-        else:
-            raise Unsupported("f-string of " + qual)
-    if not seen_i:
-        raise Unsupported("generated name does not depend on the counter")
 
-    def is_dict(e):
-        return isinstance(e, ast.Attribute) and isinstance(e.value, ast.Name) and e.value.id == "self" and e.attr == dict_attr
+    def counter_fstring(js):
+        parts = []
+        seen_i = False
+        for v in js.values:
+            if isinstance(v, ast.Constant) and isinstance(v.value, str):
+                parts.append(lit(v.value))
+            elif isinstance(v, ast.FormattedValue) and v.conversion == -1 and v.format_spec is None \
+                    and isinstance(v.value, ast.Name) and v.value.id == i:
+                parts.append("py_str_of_N %s" % i)
+                seen_i = True
+            else:
+                raise Unsupported("f-string of " + qual)
+        if not seen_i:
+            raise Unsupported("generated name does not depend on the counter")
+        return " ++ ".join(parts)
+    name_expr = counter_fstring(lb[0].value)
+
+    def is_attr(e, attr):
+        return isinstance(e, ast.Attribute) and isinstance(e.value, ast.Name) and e.value.id == "self" and e.attr == attr
+
+    def is_values_test(t):
+        return (isinstance(t, ast.Compare) and len(t.ops) == 1 and isinstance(t.ops[0], ast.NotIn)
+                and isinstance(t.left, ast.Name) and t.left.id == name
+                and isinstance(t.comparators[0], ast.Call) and not t.comparators[0].args
+                and isinstance(t.comparators[0].func, ast.Attribute) and t.comparators[0].func.attr == "values"
+                and is_attr(t.comparators[0].func.value, dict_attr))
     test = lb[1].test
-    if not (isinstance(test, ast.Compare) and len(test.ops) == 1 and isinstance(test.ops[0], ast.NotIn)
-            and isinstance(test.left, ast.Name) and test.left.id == name
-            and isinstance(test.comparators[0], ast.Call) and not test.comparators[0].args
-            and isinstance(test.comparators[0].func, ast.Attribute) and test.comparators[0].func.attr == "values"
-            and is_dict(test.comparators[0].func.value)):
+    name2_expr = None
+    if is_values_test(test):
+        pass
+    elif (taken_attr is not None and isinstance(test, ast.BoolOp) and isinstance(test.op, ast.And) and len(test.values) == 2
+          and is_values_test(test.values[0])):
+        t2 = test.values[1]
+        if not (isinstance(t2, ast.Compare) and len(t2.ops) == 1 and isinstance(t2.ops[0], ast.NotIn)
+                and isinstance(t2.left, ast.JoinedStr) and is_attr(t2.comparators[0], taken_attr)):
+            raise Unsupported("second loop test of " + qual)
+        name2_expr = counter_fstring(t2.left)
+    else:
         raise Unsupported("loop test of " + qual)
     ib = lb[1].body
     if not (len(ib) == 2 and isinstance(ib[0], ast.Assign) and len(ib[0].targets) == 1
-            and isinstance(ib[0].targets[0], ast.Subscript) and is_dict(ib[0].targets[0].value)
+            and isinstance(ib[0].targets[0], ast.Subscript) and is_attr(ib[0].targets[0].value, dict_attr)
             and isinstance(ib[0].targets[0].slice, ast.Name) and ib[0].targets[0].slice.id == args[0]
             and isinstance(ib[0].value, ast.Name) and ib[0].value.id == name
             and isinstance(ib[1], ast.Return) and ib[1].value is None):
         raise Unsupported("assignment in " + qual)
     c = coqname
-    return "\n".join([
-        "Definition %s_bound : N := %d%%N." % (c, bound),
-        "Definition %s_name (%s : N) : str := (%s)." % (c, i, " ++ ".join(parts)),
-        "Fixpoint %s_loop (fuel : nat) (%s : N) (values : list str) : option str :=" % (c, i),
-        "  match fuel with",
-        "  | O => None",
-        "  | S fuel' => let %s := %s_name %s in" % (name, c, i),
-        "      if negb (py_in_str %s values) then Some %s else %s_loop fuel' (N.succ %s) values" % (name, name, c, i),
-        "  end.",
-        "Definition %s (prefixes : list (str * str)) (%s : str) : res (list (str * str)) :=" % (c, args[0]),
-        "  match %s_loop (N.to_nat %s_bound) 0%%N (dict_values prefixes) with" % (c, c),
-        "  | Some %s => Ok (dict_set %s %s prefixes)" % (name, args[0], name),
-        "  | None => Crash OtherError   (* NotImplementedError *)",
-        "  end.",
-    ])
+    out = ["Definition %s_bound : N := %d%%N." % (c, bound),
+           "Definition %s_name (%s : N) : str := (%s)." % (c, i, name_expr)]
+    if name2_expr is None:
+        out += [
+            "Fixpoint %s_loop (fuel : nat) (%s : N) (values : list str) : option str :=" % (c, i),
+            "  match fuel with",
+            "  | O => None",
+            "  | S fuel' => let %s := %s_name %s in" % (name, c, i),
+            "      if negb (py_in_str %s values) then Some %s else %s_loop fuel' (N.succ %s) values" % (name, name, c, i),
+            "  end.",
+            "Definition %s (prefixes : list (str * str)) (%s : str) : res (list (str * str)) :=" % (c, args[0]),
+            "  match %s_loop (N.to_nat %s_bound) 0%%N (dict_values prefixes) with" % (c, c)]
+    else:
+        out += [
+            "Definition %s_name2 (%s : N) : str := (%s)." % (c, i, name2_expr),
+            "Fixpoint %s_loop (fuel : nat) (%s : N) (values taken : list str) : option str :=" % (c, i),
+            "  match fuel with",
+            "  | O => None",
+            "  | S fuel' => let %s := %s_name %s in" % (name, c, i),
+            "      if (negb (py_in_str %s values) && negb (py_in_str (%s_name2 %s) taken))%%bool then Some %s" % (name, c, i, name),
+            "      else %s_loop fuel' (N.succ %s) values taken" % (c, i),
+            "  end.",
+            "Definition %s (taken : list str) (prefixes : list (str * str)) (%s : str) : res (list (str * str)) :=" % (c, args[0]),
+            "  match %s_loop (N.to_nat %s_bound) 0%%N (dict_values prefixes) taken with" % (c, c)]
+    out += ["  | Some %s => Ok (dict_set %s %s prefixes)" % (name, args[0], name),
+            "  | None => Crash OtherError   (* NotImplementedError *)",
+            "  end."]
+    return "\n".join(out)
